@@ -719,7 +719,20 @@ def _identity_deviations(spec, cfg, sl, sizes, E, H, rng):
     return devs
 
 
+_REPLAY_CACHE = {}
+
+
 def replay(key, obligation, witness):
+    """memoised per configuration (many obligations of one configuration share one real-code run)"""
+    import json
+
+    ck = json.dumps(((witness or {}).get("notes") or {}), sort_keys=True, default=str)
+    if ck not in _REPLAY_CACHE:
+        _REPLAY_CACHE[ck] = _replay(key, obligation, witness)
+    return _REPLAY_CACHE[ck]
+
+
+def _replay(key, obligation, witness):
     """Evaluate the identities of the failing configuration on the REAL detectors (real
     place_on_grid / init_state / update, real JAX, float64) for the witness fields and for seeded
     random fields, grids and box positions; an exception raised by the real code also reproduces."""
